@@ -46,7 +46,7 @@ CHECKS = [
     {
         "id": "C08",
         "text": "Explicit-state breadth-first closure of the reachable state graph of real Library objects under add/remove/replace (all argument forms and flags) "
-        "over a universe of 7 (quick) / 9 (thorough) blocks with forced key collisions, libraries pruned at length 3 / 4, from 4 initial states, plus all histories of "
+        "over a universe of 7 (quick) / 8 (thorough) blocks with forced key collisions, libraries pruned at length 3 / 4, from 4 initial states, plus all histories of "
         "length <=2 / <=3 without deduplication. After every call (also raising ones) the object is compared with a list+dict reference model and the identity/partition "
         "invariants; ValueError must leave the canonical state unchanged. F9 (add with fail_on_duplicate_key raises after inserting) is a recorded known finding.",
         "note": "Universe and length bound as stated; canonical-state deduplication is justified in DESIGN 4/C08 and guarded by the no-dedup run.",
@@ -72,7 +72,7 @@ CHECKS = [
     },
     {
         "id": 'C09',
-        "text": 'Bounded-exhaustive exploration: every document of <=4 (quick) / <=5 (thorough) blocks over a 10-block catalogue with colliding entry/string/field keys, two separators, default and empty parse stack (21.6k / 222k documents); compared with a constructive reference walk: one block per source block, first holder live, later holders wrapped in place exposing key / first block (identity under the in-place stack) / complete duplicate with raw, repeated field keys -> duplicate-field block with every occurrence and not registered as live, entries_dict/strings_dict equal the live maps.',
+        "text": 'Bounded-exhaustive exploration: every document of <=4 (quick) / <=5 (thorough) blocks over a 12-block catalogue with colliding entry/string/field keys, two separators, default and empty parse stack (21.6k / 222k documents); compared with a constructive reference walk: one block per source block, first holder live, later holders wrapped in place exposing key / first block (identity under the in-place stack) / complete duplicate with raw, repeated field keys -> duplicate-field block with every occurrence and not registered as live, entries_dict/strings_dict equal the live maps.',
         "note": 'Catalogue and length bound as stated.',
         "technique": 'bounded-exhaustive model checking of the implementation against a constructive reference model',
     },
@@ -96,7 +96,7 @@ CHECKS = [
     },
     {
         "id": 'C13',
-        "text": "Bounded-exhaustive exploration of parse_single_name_into_parts: every token sequence over a 16-token name alphabet (upper/lower/caseless words incl. a brace group holding a control word, special characters, escapes, separators, commas, unbalancing braces, bare backslash) up to length 5 (quick) / 6 (thorough), plus a 9-token word alphabet to length 7 / 8 (all case patterns of up to 4 words in all comma forms). Compared with a transcription of BibTeX's name rules (agrees with all 149 names of the repository's BibTeX-derived corpus in selftest) and a constructive oracle that knows each word's designed case; invalid names must raise InvalidNameError and, through SplitNameParts and parse_string, yield a MiddlewareErrorBlock retaining the entry.",
+        "text": "Bounded-exhaustive exploration of parse_single_name_into_parts: every token sequence over an 18-token name alphabet (upper/lower/caseless words incl. a brace group holding a control word, special characters, escapes, separators, commas, unbalancing braces, bare backslash) up to length 5 (quick) / 6 (thorough), plus a 9-token word alphabet to length 7 / 8 (all case patterns of up to 4 words in all comma forms). Compared with a transcription of BibTeX's name rules (agrees with all 149 names of the repository's BibTeX-derived corpus in selftest) and a constructive oracle that knows each word's designed case; invalid names must raise InvalidNameError and, through SplitNameParts and parse_string, yield a MiddlewareErrorBlock retaining the entry.",
         "note": 'Words with table-driven case are outside the alphabet; names with an empty von-Last section are judged for word conservation only.',
         "technique": "bounded-exhaustive model checking of the implementation against a validated transcription of BibTeX's algorithm (two-oracle rule)",
     },
@@ -143,6 +143,32 @@ CHECKS = [
         "technique": 'bounded-exhaustive model checking of the implementation with a differential oracle (entry point vs hand-folded stack)',
     },
 ]
+
+# families added after the second wave of seeded changes (DESIGN 10.7)
+EXTRA = {
+    "C01": "Also: size-n realistic documents (n up to 300 / 4100) with 60 truncations and 120 single-character corruptions each, @string self-reference / cycle / chain families, and plain calls after the documented custom-middleware workflows (state left between calls).",
+    "C02": "Also: structural value sequences over { } \" , up to length 11 / 13, size-n documents with constructive ground truth, a second document parsed into the same library, and an earlier call on a truncated document before every judged call.",
+    "C03": "Also: size-n documents with truncations and corruptions, through Splitter, parse_string (default stack) and parse_string with a user stack whose instances live across calls; an extended alphabet (CRLF, NBSP, non-ASCII, form feed, U+2028).",
+    "C04": "Also: the malformed middle parsed on its own before every triple (nothing of an earlier call may survive), and size-scaled middles (nesting depth, unterminated blocks) up to 3000 / 10^5.",
+    "C05": "Also: one parsed library written under every format in turn (compared with a fresh parse), and size-n documents.",
+    "C06": "Also: parsed libraries of n entries (thousands of output pieces) and a history of writes and in-place edits on one Library / BibtexFormat.",
+    "C07": "Also: every pool instance long-lived over all libraries (forwards and backwards, compared with fresh instances), a library on which a copy-mode middleware itself produces the error block, and a 130-entry library.",
+    "C09": "Also: a second document parsed into the library of the first, optionally after a rolled-back replace, compared with parsing both in one go.",
+    "C10": "Also: long-lived Remove/AddEnclosing instances over sequences of values, and @string blocks named like numeric fields.",
+    "C11": "Also: size-n documents with @string keys of different lengths referenced far away, and a long-lived resolver instance over sequences of documents.",
+    "C12": "Also: a nesting-depth family and lists of up to 1000 names.",
+    "C13": "Also: the exact token-edit balls of radius 2 / 3 around four realistic names, long-lived SplitNameParts / SeparateCoAuthors instances, and results edited by the caller before the same name is parsed again.",
+    "C14": "Also: four separator spellings (incl. 'and' at a line start) and results edited by the caller before the merged text is split again.",
+    "C15": "Also: apply-edit-apply with one instance.",
+    "C16": "Also: blocks are identified by a tag in their raw text and start lines run against the library order; a long-lived sorter over sequences of libraries.",
+    "C17": "Also: long-lived instances over sequences of entries.",
+    "C18": "Also: libraries of n entries (block count and structure preserved; round trip of their values), a failing @string before good entries on one instance.",
+    "C19": "Also: equality of independently built blocks and fields on every line of size-n documents (line numbers beyond 256), copies compared after reading accessors.",
+    "C20": "Also: the same stack instances over several calls, a block middleware reused after a failing call, and files of 70 KB..1.1 MB in utf-8 / gbk / utf-16 / latin-1 with every alignment of multi-byte characters.",
+}
+for _c in CHECKS:
+    if _c["id"] in EXTRA:
+        _c["text"] = _c["text"] + " " + EXTRA[_c["id"]]
 
 CHECKS.sort(key=lambda c: c["id"])
 
